@@ -34,7 +34,22 @@ type solveResult struct {
 	secs   float64
 }
 
+// solverSlots bounds the number of solver processes running at once (one per core), so that the wall-clock
+// time limits of the solvers mean what they say.
+var scriptMu sync.Mutex
+
+var solverSlots = make(chan struct{}, 16)
+
 func runSolver(ctx context.Context, s solverSpec, file string, timeoutS int) solveResult {
+	select {
+	case solverSlots <- struct{}{}:
+		defer func() { <-solverSlots }()
+	case <-ctx.Done():
+		return solveResult{result: "timeout", solver: s.name, out: "cancelled"}
+	}
+	if ctx.Err() != nil {
+		return solveResult{result: "timeout", solver: s.name, out: "cancelled"}
+	}
 	start := time.Now()
 	argv := s.argv(file, timeoutS)
 	cctx, cancel := context.WithTimeout(ctx, time.Duration(timeoutS+2)*time.Second)
@@ -68,7 +83,9 @@ func discharge(u *Universe, o *Obligation, dir string, timeoutS int, confirm boo
 	if o.Solver == "syntactic" || o.Result == "error" {
 		return
 	}
+	scriptMu.Lock() // terms memoise their text: rendering is not safe for concurrent use
 	script := u.Script(o.Assumptions, o.Goal, true)
+	scriptMu.Unlock()
 	fname := filepath.Join(dir, sanitizeFile(o.Name)+fmt.Sprintf("__p%d_%x.smt2", o.Path, fnv(script)))
 	os.WriteFile(fname, []byte("; obligation "+o.Name+"\n; source "+o.Src+"\n"+script), 0o644)
 	o.File = fname
@@ -83,7 +100,9 @@ func discharge(u *Universe, o *Obligation, dir string, timeoutS int, confirm boo
 	hasSidx := strings.Contains(script, "(sidx ")
 	if !o.Cover {
 		add := func(abs, usi bool, tag string) {
+			scriptMu.Lock()
 			txt := u.ScriptVariant(o.Assumptions, o.Goal, abs, usi)
+			scriptMu.Unlock()
 			if abs && !strings.Contains(txt, "u_mul_") && !strings.Contains(txt, "u_div_") {
 				return
 			}
